@@ -124,7 +124,7 @@ package federation
 //@   calls fn#1: pure
 //@   calls fn#1: set len0 = len(todo)
 //@   calls fn#1: set ferr = $r1
-//@   loop 3: invariant todo == old(todo) && len(todo) <= len0 && (progress ==> len(todo) < len0) && ferr == nil
+//@   loop 4: invariant todo == old(todo) && len(todo) <= len0 && (progress ==> len(todo) < len0) && ferr == nil
 //@   at loop 2 back: assert len(todo) < len0
 //@   at send#2: assert ferr != nil
 //@   at send#4: assert ferr == nil
